@@ -1,6 +1,7 @@
-//! Glue for the coverage-guided engine Z: decode fuzzer bytes into the engines' case types by
-//! feeding them to the proptest strategies as the random stream, and run the same interpreters
-//! and monitors.
+//! Glue for the coverage-guided engine Z: the fuzzer's input is the JSON text of an engine's case;
+//! a structure-aware custom mutator keeps every input a valid case (operations inserted, replaced
+//! by freshly generated ones, deleted, duplicated, reordered, spliced; numeric leaves nudged), and
+//! the same interpreters and monitors as engines P / F are the oracle.
 use std::sync::Once;
 
 use proptest::strategy::{Strategy, ValueTree};
@@ -91,14 +92,221 @@ pub fn dump_corpus(which: &str, n: usize, dir: &str, seed: u64) -> std::io::Resu
     Ok(())
 }
 
+/// a panic of the interpreter itself (not of a contract: those are caught where the message is
+/// executed) means the input is outside what the interpreter was written for; it is skipped
 pub fn run_pool_backing(case: &PoolCase) -> Result<(), String> {
     let mut st = Stats::default();
     st.frozen = true;
-    pool_engine().run(case, &mut st)
+    std::panic::catch_unwind(std::panic::AssertUnwindSafe(|| pool_engine().run(case, &mut st))).unwrap_or(Ok(()))
 }
 
 pub fn run_farm_custody_rewards(case: &FarmCase) -> Result<(), String> {
     let mut st = Stats::default();
     st.frozen = true;
-    farm_engine().run(case, &mut st)
+    std::panic::catch_unwind(std::panic::AssertUnwindSafe(|| farm_engine().run(case, &mut st))).unwrap_or(Ok(()))
+}
+
+
+/// tiny deterministic generator for the mutator's own choices, seeded by libFuzzer per call
+struct Mix(u64);
+impl Mix {
+    fn next(&mut self) -> u64 {
+        self.0 = self.0.wrapping_add(0x9E37_79B9_7F4A_7C15);
+        let mut z = self.0;
+        z = (z ^ (z >> 30)).wrapping_mul(0xBF58_476D_1CE4_E5B9);
+        z = (z ^ (z >> 27)).wrapping_mul(0x94D0_49BB_1331_11EB);
+        z ^ (z >> 31)
+    }
+    fn below(&mut self, n: usize) -> usize {
+        if n == 0 {
+            0
+        } else {
+            (self.next() % n as u64) as usize
+        }
+    }
+}
+
+fn fresh<E: Engine>(e: &E, seed: u64) -> serde_json::Value {
+    use proptest::test_runner::RngSeed;
+    let mut r = TestRunner::new(Config { failure_persistence: None, rng_seed: RngSeed::Fixed(seed), ..Config::default() });
+    match e.strategy(crate::framework::Tier::Quick).new_tree(&mut r) {
+        Ok(t) => serde_json::to_value(t.current()).unwrap_or(serde_json::Value::Null),
+        Err(_) => serde_json::Value::Null,
+    }
+}
+
+/// all numeric leaves of a JSON value, as paths
+fn number_paths(v: &serde_json::Value, cur: &mut Vec<String>, out: &mut Vec<Vec<String>>) {
+    match v {
+        serde_json::Value::Number(_) => out.push(cur.clone()),
+        serde_json::Value::Array(a) => {
+            for (i, x) in a.iter().enumerate() {
+                cur.push(i.to_string());
+                number_paths(x, cur, out);
+                cur.pop();
+            }
+        }
+        serde_json::Value::Object(o) => {
+            for (k, x) in o {
+                cur.push(k.clone());
+                number_paths(x, cur, out);
+                cur.pop();
+            }
+        }
+        _ => {}
+    }
+}
+
+/// a leaf's field path without the positions inside sequences, except the innermost one (which
+/// tells tuple components apart)
+fn signature(p: &[String]) -> String {
+    let last = p.len().saturating_sub(1);
+    p.iter().enumerate().filter(|(i, x)| *i == last || x.parse::<usize>().is_err()).map(|(_, x)| x.as_str()).collect::<Vec<_>>().join("/")
+}
+
+fn at_mut<'a>(v: &'a mut serde_json::Value, path: &[String]) -> Option<&'a mut serde_json::Value> {
+    let mut c = v;
+    for p in path {
+        c = match c {
+            serde_json::Value::Array(a) => a.get_mut(p.parse::<usize>().ok()?)?,
+            serde_json::Value::Object(o) => o.get_mut(p)?,
+            _ => return None,
+        };
+    }
+    Some(c)
+}
+
+/// One structure-aware mutation step on the JSON text of a case of engine `e`.
+pub fn mutate_case<E: Engine>(e: &E, data: &mut [u8], size: usize, max_size: usize, seed: u32) -> usize {
+    let mut m = Mix(seed as u64 ^ 0xD1B5_4A32_D192_ED03);
+    let parsed: Option<serde_json::Value> = serde_json::from_slice::<E::Case>(&data[..size.min(data.len())]).ok().and_then(|c| serde_json::to_value(c).ok());
+    let mut v = match parsed {
+        Some(v) => v,
+        None => fresh(e, seed as u64),
+    };
+    let rounds = 1 + m.below(3);
+    for _ in 0..rounds {
+        let mut t = v.clone();
+        let n = t.get("ops").and_then(|o| o.as_array()).map(|a| a.len()).unwrap_or(0);
+        let choice = m.below(10);
+        match choice {
+            0 | 1 => {
+                // replace / insert an operation generated by the engine's own strategy
+                let f = fresh(e, m.next());
+                let fo = f.get("ops").and_then(|o| o.as_array()).cloned().unwrap_or_default();
+                if !fo.is_empty() {
+                    let op = fo[m.below(fo.len())].clone();
+                    if let Some(a) = t.get_mut("ops").and_then(|o| o.as_array_mut()) {
+                        if choice == 0 && n > 0 {
+                            let i = m.below(n);
+                            a[i] = op;
+                        } else if n < 80 {
+                            let i = m.below(n + 1);
+                            a.insert(i, op);
+                        }
+                    }
+                }
+            }
+            2 if n > 1 => {
+                let i = m.below(n);
+                t["ops"].as_array_mut().unwrap().remove(i);
+            }
+            3 if n > 0 && n < 80 => {
+                let i = m.below(n);
+                let j = m.below(n + 1);
+                let op = t["ops"][i].clone();
+                t["ops"].as_array_mut().unwrap().insert(j, op);
+            }
+            4 if n > 1 => {
+                let i = m.below(n);
+                let j = m.below(n);
+                t["ops"].as_array_mut().unwrap().swap(i, j);
+            }
+            5 => {
+                // splice: keep a prefix, continue with the tail of a fresh history
+                let f = fresh(e, m.next());
+                let fo = f.get("ops").and_then(|o| o.as_array()).cloned().unwrap_or_default();
+                if let Some(a) = t.get_mut("ops").and_then(|o| o.as_array_mut()) {
+                    let keep = m.below(n + 1);
+                    a.truncate(keep);
+                    let from = m.below(fo.len() + 1);
+                    a.extend(fo.into_iter().skip(from).take(80usize.saturating_sub(keep)));
+                }
+            }
+            6 => {
+                // the configuration (and the pools created up front) of a fresh case, same operations
+                let f = fresh(e, m.next());
+                if let (Some(o), Some(fo)) = (t.as_object_mut(), f.as_object()) {
+                    for (k, val) in fo {
+                        if k != "ops" && m.below(2) == 0 {
+                            o.insert(k.clone(), val.clone());
+                        }
+                    }
+                }
+            }
+            _ => {
+                // give a numeric leaf the value the same field has in a freshly generated case, so
+                // that every number stays inside the domain the strategies produce (arithmetic
+                // nudges left it: 10^decimals overflowed in the interpreter, not in the contracts)
+                let f = fresh(e, m.next());
+                let mut fp = vec![];
+                number_paths(&f, &mut vec![], &mut fp);
+                let mut paths = vec![];
+                number_paths(&t, &mut vec![], &mut paths);
+                if !paths.is_empty() && !fp.is_empty() {
+                    let p = paths[m.below(paths.len())].clone();
+                    let sig = signature(&p);
+                    let cands: Vec<&Vec<String>> = fp.iter().filter(|q| signature(q) == sig).collect();
+                    if !cands.is_empty() {
+                        let q = cands[m.below(cands.len())].clone();
+                        let mut fm = f.clone();
+                        if let (Some(val), Some(x)) = (at_mut(&mut fm, &q).map(|v| v.clone()), at_mut(&mut t, &p)) {
+                            *x = val;
+                        }
+                    }
+                }
+            }
+        }
+        // keep the step only if the result is still a case
+        if serde_json::from_value::<E::Case>(t.clone()).is_ok() {
+            v = t;
+        }
+    }
+    let mut text = serde_json::to_vec(&v).unwrap_or_default();
+    while text.len() > max_size.min(data.len()) {
+        let Some(a) = v.get_mut("ops").and_then(|o| o.as_array_mut()) else { break };
+        if a.pop().is_none() {
+            break;
+        }
+        text = serde_json::to_vec(&v).unwrap_or_default();
+    }
+    if text.len() > max_size.min(data.len()) {
+        return size;
+    }
+    data[..text.len()].copy_from_slice(&text);
+    text.len()
+}
+
+/// Cross-over: configuration and a prefix of the first history, a suffix of the second.
+pub fn crossover_case<E: Engine>(_e: &E, d1: &[u8], d2: &[u8], out: &mut [u8], seed: u32) -> usize {
+    let mut m = Mix(seed as u64 ^ 0xA076_1D64_78BD_642F);
+    let a = serde_json::from_slice::<E::Case>(d1).ok().and_then(|c| serde_json::to_value(c).ok());
+    let b = serde_json::from_slice::<E::Case>(d2).ok().and_then(|c| serde_json::to_value(c).ok());
+    let (Some(mut a), Some(b)) = (a, b) else { return 0 };
+    let bo = b.get("ops").and_then(|o| o.as_array()).cloned().unwrap_or_default();
+    if let Some(ao) = a.get_mut("ops").and_then(|o| o.as_array_mut()) {
+        let keep = m.below(ao.len() + 1);
+        ao.truncate(keep);
+        let from = m.below(bo.len() + 1);
+        ao.extend(bo.into_iter().skip(from).take(80usize.saturating_sub(keep)));
+    }
+    if serde_json::from_value::<E::Case>(a.clone()).is_err() {
+        return 0;
+    }
+    let text = serde_json::to_vec(&a).unwrap_or_default();
+    if text.len() > out.len() {
+        return 0;
+    }
+    out[..text.len()].copy_from_slice(&text);
+    text.len()
 }
